@@ -172,18 +172,19 @@ Proof.
 Qed.
 
 Lemma oam_tick_dma_inv rd o o' :
-  (forall a, rd a < 256) -> oam_tick_dma rd o = Ok o' -> oam_inv o -> oam_inv o'.
+  (forall a, a < 65536 -> rd a < 256) -> oam_tick_dma rd o = Ok o' -> oam_inv o -> oam_inv o'.
 Proof.
   intros Hrd H [A B C D E]. unfold oam_tick_dma in H.
   destruct (o_dmaRunning o) eqn:R; [|inversion H; subst; constructor; assumption].
   pose proof (A R) as A'.
   destruct (o_dmaCycle o =? 0) eqn:E0; [|destruct (o_dmaCycle o =? 1) eqn:E1; [|destruct (o_dmaCycle o =? 161) eqn:E2]].
   - inversion H; subst. constructor; cbn; try assumption. unfold dma_ok; cbn. intros _. unfold add16. lia.
-  - inversion H; subst. constructor; cbn; try assumption; [unfold dma_ok; cbn; intros _; unfold add16; lia|apply Hrd].
+  - inversion H; subst. constructor; cbn; try assumption; [unfold dma_ok; cbn; intros _; unfold add16; lia|].
+    apply Hrd. change 0xDF00 with 57088 in E. lia.
   - binds. inversion H; subst. constructor; cbn; try assumption; [unfold dma_ok; cbn; discriminate|].
     eapply put8_bmem; eassumption.
   - binds. inversion H; subst. constructor; cbn; try assumption.
     + unfold dma_ok; cbn. intros _. unfold add16. lia.
     + eapply put8_bmem; eassumption.
-    + apply Hrd.
+    + apply Hrd. unfold sub16. lia.
 Qed.
